@@ -11,6 +11,7 @@ import (
 	"log"
 	"os"
 	"path/filepath"
+	"sort"
 	"strings"
 	"time"
 
@@ -602,6 +603,88 @@ func (Engine) Execute(planJSON json.RawMessage, scratch string) (res sim.RunResu
 				return
 			}
 			break
+		}
+		// A second caller: should a read release the cache's lock before it is done
+		// (a lock released by a statement inside the call), a reset and a store of
+		// another stream run at that very point. The read must then still return
+		// what was stored for its stream before, or nothing — never another
+		// stream's record and no error. (The repository releases these locks by
+		// defer only: the hook does not fire there and this is a plain read.)
+		if !p.Crash || oi%4 == 0 {
+			var ids []uint64
+			for id := range model {
+				ids = append(ids, id)
+			}
+			sort.Slice(ids, func(i, j int) bool { return ids[i] < ids[j] })
+			if len(ids) > 0 {
+				id := ids[oi%len(ids)]
+				other := (id + 1 + uint64(oi%8)) % 10
+				if other == id {
+					other = (id + 1) % 10
+				}
+				ob := []byte(fmt.Sprintf("second caller %d/%d ", oi, other))
+				for len(ob) < 24+oi%200 {
+					ob = append(ob, ob...)
+				}
+				odata := []index.Data{{Direction: index.DirectionClientToServer, Content: ob, Time: base.Add(time.Second)}, {Direction: index.DirectionServerToClient, Content: ob[:len(ob)/2], Time: base.Add(2 * time.Second)}}
+				fired, ferr := false, error(nil)
+				simrt.SetUnlockHook(func(site string) {
+					if fired {
+						return
+					}
+					fired = true
+					res.Count("fault_second_caller_at_lock_release", 1)
+					if err := c.Reset(); err != nil {
+						ferr = err
+						return
+					}
+					ferr = c.SetData(other, base, odata)
+				})
+				var msg string
+				if oi%2 == 0 {
+					msg = compareID(c, id, model[id], true, what+", read by a caller while a second caller resets the cache and stores stream "+fmt.Sprint(other))
+				} else {
+					d2, _, _, _, found, err := c.DataForSearch(id)
+					want0, want1 := 0, 0
+					for _, ch := range model[id] {
+						if ch.dir == 0 {
+							want0 += len(ch.data)
+						} else {
+							want1 += len(ch.data)
+						}
+					}
+					if err != nil {
+						msg = fmt.Sprintf("read-error|%s: DataForSearch(%d) while a second caller resets the cache: %v", what, id, err)
+					} else if found && (len(d2[0]) != want0 || len(d2[1]) != want1) {
+						msg = fmt.Sprintf("chunks|%s: DataForSearch(%d) while a second caller resets the cache returns %d+%d bytes, stored were %d+%d", what, id, len(d2[0]), len(d2[1]), want0, want1)
+					}
+				}
+				simrt.SetUnlockHook(nil)
+				if fired {
+					if ferr != nil {
+						viol(fmt.Sprintf("second-caller-error|%s: reset/store by the second caller failed: %v", what, ferr))
+						return
+					}
+					if msg != "" && !strings.HasPrefix(msg, "lost|") && !strings.HasPrefix(msg, "contains|") {
+						viol("second-caller-" + msg)
+						if res.Viol != nil {
+							return
+						}
+					}
+					model = map[uint64][]mchunk{other: {{0, ob, base.Add(time.Second), ""}, {1, ob[:len(ob)/2], base.Add(2 * time.Second), ""}}}
+					if m := compare(c, model, what+" and a second caller's reset and store"); m != "" {
+						viol("second-caller-" + m)
+						if res.Viol != nil {
+							return
+						}
+					}
+				} else if msg != "" {
+					viol(msg)
+					if res.Viol != nil {
+						return
+					}
+				}
+			}
 		}
 		if cr != nil {
 			affected := map[uint64]bool{}
